@@ -13,7 +13,8 @@ from vf.flo import prog as P
 LEVEL = "exploration"
 RULE = ("grid: tick period (binary-exact and decimal) x timeout T x repeat N on a two-frame program (exhaustive) plus random "
         "frame sequences (nested groups, timeout / repeat / go on elapsed|recurred, forced re-entry `go me`, framer period 0 or "
-        "2 ticks); distinct = distinct program text; non-trivial = at least 2 transitions taken and 5 evaluations observed")
+        "2 ticks, optionally an auxiliary -- plain or a clone `as mine` / `as k` -- with clock clauses of its own under one of the "
+        "frames); distinct = distinct program text; non-trivial = at least 2 transitions taken and 5 evaluations observed")
 META = {"engine": "A floscript", "technique": "runtime trace monitor vs exact-rational clock model",
         "level_text": "At every observed evaluation the recorded elapsed/recurred are compared with store-time/iterations since the last "
                       "outline change, and every timeout/repeat transition tick with the first evaluation at which the exact clock reaches it.",
@@ -42,17 +43,128 @@ def clause_stmt(cl):
 
 def build_prog(case):
     frames = []
+    aux = case.get("aux")
     for f in case["frames"]:
         st = [P.rec(f["name"] + ".pre", "precur"), P.rec(f["name"] + ".en", "enter")]
+        if aux and aux["host"] == f["name"]:
+            a = {"v": "aux", "aux": "x"}
+            if aux.get("as"):
+                a["as"] = aux["as"]
+            st.append(a)
         st += [clause_stmt(cl) for cl in f["clauses"]]
         frames.append(P.frame(f["name"], st, over=f.get("over"), next=f.get("next")))
-    return P.program([P.house("h", [P.framer("f", frames, period=case.get("fperiod"))])], period=case["P"])
+    framers = [P.framer("f", frames, period=case.get("fperiod"))]
+    if aux:
+        aframes = []
+        for f in aux["frames"]:
+            st = [P.rec(f["name"] + ".pre", "precur"), P.rec(f["name"] + ".en", "enter")]
+            st += [clause_stmt(cl) for cl in f["clauses"]]
+            aframes.append(P.frame(f["name"], st, over=f.get("over"), next=f.get("next")))
+        framers.append(P.framer("x", aframes, sched="moot" if aux.get("as") else "aux"))
+    return P.program([P.house("h", framers)], period=case["P"])
 
 
 def clause_true(cl, el, rec):
     if cl["k"] in ("timeout", "go_el"):
         return el >= Fraction(cl["t"])
     return rec >= cl["n"]
+
+
+class Clock(object):
+    """clock state of one framer (the scheduled framer, or its auxiliary): active frame, tick of the last outline
+    change, iterations since"""
+
+    def __init__(self, S, clauses, who):
+        self.S, self.clauses, self.who = S, clauses, who
+        self.active, self.c, self.rec = None, None, 0
+        self.ntrans = self.nevals = 0
+
+    def enter_first(self, k):
+        self.active, self.c, self.rec = self.S.first, k, 0
+
+
+def evaluate(ctx, st, k, evs, Pf, exact, case, wit):
+    """one evaluation (segue) of framer `st` at tick k with its events `evs`: clocks, expected and observed clock-driven
+    transition.  Returns None (no transition), (ex, en, rx) of the transition taken, or "stop" after a hard disagreement."""
+    S, clauses = st.S, st.clauses
+    who = "" if st.who == "f" else "aux "
+    key = (lambda x: x) if st.who == "f" else (lambda x: "aux/" + x)
+    entered = [e["frame"] for e in evs if e["ctx"] == "enter"]
+    st.rec += 1
+    st.nevals += 1
+    rec, c, active = st.rec, st.c, st.active
+    el = (k - c) * Pf
+    for e in evs:
+        if e["ctx"] != "precur":
+            continue
+        ctx.hit("clock_evaluations" if st.who == "f" else "aux_clock_evaluations")
+        ok_el = (e["elapsed"] == float(el)) if exact else abs(e["elapsed"] - float(el)) < 1e-9
+        ctx.check(ok_el, key("elapsed-wrong-at-evaluation"),
+                  "tick %d %sframe %s: elapsed %r, store time since last outline change %r" % (k, who, e["frame"], e["elapsed"], float(el)),
+                  lambda: wit({"tick": k, "event": e, "last_change_tick": c}))
+        ctx.check(e["recurred"] == rec, key("recurred-wrong-at-evaluation"),
+                  "tick %d %sframe %s: recurred %r, iterations since last outline change %d" % (k, who, e["frame"], e["recurred"], rec),
+                  lambda: wit({"tick": k, "event": e, "last_change_tick": c}))
+    # expected transition (clauses in `skip` are exact-coincidence clauses the float clock missed)
+    skip = []
+
+    def expected():
+        for fname in S.outline(active):
+            for cl in clauses[fname]:
+                if any(cl is x for x in skip):
+                    continue
+                if clause_true(cl, el, rec):
+                    far = S.resolve_far(fname, cl.get("far", "next"))
+                    if far is not None:
+                        return far, (fname, cl)
+        return None, None
+    exp_far, exp_clause = expected()
+    # observed transition: enter events of this evaluation
+    obs_far = None
+    if entered:
+        for cand in S.order:
+            ex, en, rx = S.exen(S.outline(active), cand)
+            if en == entered and cand in en + rx:
+                if cand == exp_far:
+                    obs_far = cand
+                    break
+                if obs_far is None:
+                    obs_far = cand
+    # float clock: an exact coincidence elapsed == T on a decimal tick may be missed by one evaluation
+    while exp_far is not None and not exact:
+        ex, en, rx = S.exen(S.outline(active), exp_far)
+        fname, cl = exp_clause
+        if entered == en or not (cl["k"] in ("timeout", "go_el") and el == Fraction(cl["t"])):
+            break
+        ctx.fail("decimal-tick-timeout-late-by-one-evaluation/exact-coincidence",
+                 "tick period %s: `%s %s` in frame %s not taken at tick %d although store time since the outline change is exactly %s"
+                 % (case["P"], cl["k"], cl["t"], fname, k, cl["t"]), lambda: wit({"tick": k, "clause": cl}))
+        skip.append(cl)
+        exp_far, exp_clause = expected()
+    if exp_far is not None and obs_far is None:
+        fname, cl = exp_clause
+        ctx.fail(key("clock-transition-missed"), "tick %d: expected %stransition %s -> %s (%r, elapsed %s recurred %d) did not happen"
+                 % (k, who, fname, exp_far, cl, float(el), rec), lambda: wit({"tick": k, "clause": cl, "active": active}))
+        return "stop"
+    if exp_far is None and obs_far is not None:
+        ctx.fail(key("clock-transition-early"), "tick %d: %stransition to %s (entered %s) although no clock condition holds (elapsed %s recurred %d)"
+                 % (k, who, obs_far, entered, float(el), rec), lambda: wit({"tick": k, "active": active}))
+        return "stop"
+    if exp_far is not None:
+        ex, en, rx = S.exen(S.outline(active), exp_far)
+        if not ctx.check(entered == en, key("clock-transition-wrong-target"),
+                         "tick %d: expected %stransition to %s (enter %s), observed enters %s" % (k, who, exp_far, en, entered),
+                         lambda: wit({"tick": k, "active": active})):
+            return "stop"
+        fname, cl = exp_clause
+        ctx.hit(("fired_" if st.who == "f" else "aux_fired_") + cl["k"])
+        if cl.get("far") == "me":
+            ctx.hit("forced_reentry")
+        st.active, st.c, st.rec = exp_far, k, 0
+        st.ntrans += 1
+        return ex, en, rx
+    ctx.check(True, "ok")
+    return None
 
 
 def check_case(ctx, case):
@@ -67,119 +179,70 @@ def check_case(ctx, case):
     if res.exc is not None:
         ctx.fail("run-raised", "run raised %r" % (res.exc,), {"program": text})
         return
-    S = P.Static(prog["houses"][0]["framers"][0])
-    clauses = {f["name"]: f["clauses"] for f in case["frames"]}
+    framers = prog["houses"][0]["framers"]
+    F = Clock(P.Static(framers[0]), {f["name"]: f["clauses"] for f in case["frames"]}, "f")
+    aux = case.get("aux")
+    A = Clock(P.Static(framers[1]), {f["name"]: f["clauses"] for f in aux["frames"]}, "x") if aux else None
+    host = aux["host"] if aux else None
     wit = lambda extra=None: {"program": text, "P": case["P"], "detail": extra}
     exact = dyadic(Pf)
-    # evaluations: sends with control run while started/running
-    evs_by_send = {}
-    for i, e in enumerate(res.trace):
-        evs_by_send.setdefault(e["tick"], []).append(e)
-    active = None
-    c = None
-    rec = 0
-    ntrans = 0
-    nevals = 0
     status = "stopped"
     for s in res.sends:
         if s["caller"] != "run" or s["tasker"] != "f":
             continue
         k = s["tick"]
         evs = res.trace[s["seq"]:s.get("seq_end", s["seq"])]
-        entered = [e["frame"] for e in evs if e["ctx"] == "enter"]
+        fe = [e for e in evs if e["framer"] == "f"]
+        # the auxiliary (plain: framer x; clone: f_x1 / f_<tag>) acts inside its main framer's run: what it does before the
+        # main framer's first enter event of this run is its own evaluation, what comes after is its (re)entry with the host
+        cut = next((i for i, e in enumerate(evs) if e["framer"] == "f" and e["ctx"] == "enter"), len(evs))
+        ae_eval = [e for e in evs[:cut] if e["framer"] != "f"]
+        ae_after = [e for e in evs[cut:] if e["framer"] != "f"]
+        entered = [e["frame"] for e in fe if e["ctx"] == "enter"]
         if s["control"] == "start" and status == "stopped":
-            active, c, rec = S.first, k, 0
+            F.enter_first(k)
             status = "started"
-            ctx.check(entered == S.outline(active), "start-enter-outline", "start entered %s, outline is %s" % (entered, S.outline(active)), wit)
+            ctx.check(entered == F.S.outline(F.active), "start-enter-outline", "start entered %s, outline is %s" % (entered, F.S.outline(F.active)), wit)
+            if A is not None and host in F.S.outline(F.active):
+                A.enter_first(k)
+                got = [e["frame"] for e in ae_after if e["ctx"] == "enter"]
+                ctx.check(got == A.S.outline(A.active), "aux/enter-outline-with-host", "aux entered %s with its host frame, outline is %s" % (
+                    got, A.S.outline(A.active)), wit)
             continue
         if s["control"] != "run" or status not in ("started", "running"):
             continue
         status = "running"
         ctx.event(len(evs))
-        rec += 1
-        el = (k - c) * Pf
-        nevals += 1
-        # clocks at evaluation
-        for e in evs:
-            if e["ctx"] != "precur":
-                continue
-            ctx.hit("clock_evaluations")
-            ok_el = (e["elapsed"] == float(el)) if exact else abs(e["elapsed"] - float(el)) < 1e-9
-            ctx.check(ok_el, "elapsed-wrong-at-evaluation",
-                      "tick %d frame %s: elapsed %r, store time since last outline change %r" % (k, e["frame"], e["elapsed"], float(el)),
-                      lambda: wit({"tick": k, "event": e, "last_change_tick": c}))
-            ctx.check(e["recurred"] == rec, "recurred-wrong-at-evaluation",
-                      "tick %d frame %s: recurred %r, iterations since last outline change %d" % (k, e["frame"], e["recurred"], rec),
-                      lambda: wit({"tick": k, "event": e, "last_change_tick": c}))
-        # expected transition (clauses in `skip` are exact-coincidence clauses the float clock missed)
-        skip = []
-
-        def expected():
-            for fname in S.outline(active):
-                for cl in clauses[fname]:
-                    if any(cl is x for x in skip):
-                        continue
-                    if clause_true(cl, el, rec):
-                        far = S.resolve_far(fname, cl.get("far", "next"))
-                        if far is not None:
-                            return far, (fname, cl)
-            return None, None
-        exp_far, exp_clause = expected()
-        # observed transition: enter events in this send
-        if entered:
-            # target = frame whose outline tail equals entered
-            obs_far = None
-            for cand in S.order:
-                ex, en, rx = S.exen(S.outline(active), cand)
-                if en == entered and cand in en + rx:
-                    # the target is the frame after which the outline is primary-descended: prefer exact expected
-                    if cand == exp_far:
-                        obs_far = cand
-                        break
-                    if obs_far is None:
-                        obs_far = cand
-        else:
-            obs_far = None
-        # float clock: an exact coincidence elapsed == T on a decimal tick may be missed by one evaluation
-        while exp_far is not None and not exact:
-            ex, en, rx = S.exen(S.outline(active), exp_far)
-            fname, cl = exp_clause
-            if entered == en or not (cl["k"] in ("timeout", "go_el") and el == Fraction(cl["t"])):
-                break
-            ctx.fail("decimal-tick-timeout-late-by-one-evaluation/exact-coincidence",
-                     "tick period %s: `%s %s` in frame %s not taken at tick %d although store time since the outline change is exactly %s"
-                     % (case["P"], cl["k"], cl["t"], fname, k, cl["t"]), lambda: wit({"tick": k, "clause": cl}))
-            skip.append(cl)
-            exp_far, exp_clause = expected()
-        if exp_far is not None and obs_far is None:
-            fname, cl = exp_clause
-            ctx.fail("clock-transition-missed", "tick %d: expected transition %s -> %s (%r, elapsed %s recurred %d) did not happen"
-                     % (k, fname, exp_far, cl, float(el), rec), lambda: wit({"tick": k, "clause": cl, "active": active}))
+        if A is not None:
+            if A.active is not None:
+                ctx.hit("aux_evaluations")
+                if evaluate(ctx, A, k, ae_eval, Pf, exact, case, wit) == "stop":
+                    return
+            else:
+                ctx.check(not ae_eval, "aux/acts-while-host-not-entered", "the auxiliary acted while its host frame is not entered", wit)
+        r = evaluate(ctx, F, k, fe, Pf, exact, case, wit)
+        if r == "stop":
             return
-        elif exp_far is None and obs_far is not None:
-            ctx.fail("clock-transition-early", "tick %d: transition to %s (entered %s) although no clock condition holds (elapsed %s recurred %d)"
-                     % (k, obs_far, entered, float(el), rec), lambda: wit({"tick": k, "active": active}))
-            return
-        elif exp_far is not None:
-            ex, en, rx = S.exen(S.outline(active), exp_far)
-            if not ctx.check(entered == en, "clock-transition-wrong-target",
-                             "tick %d: expected transition to %s (enter %s), observed enters %s" % (k, exp_far, en, entered),
-                             lambda: wit({"tick": k, "active": active})):
-                return
-            fname, cl = exp_clause
-            ctx.hit("fired_" + cl["k"])
-            if cl.get("far") == "me":
-                ctx.hit("forced_reentry")
-            active, c, rec = exp_far, k, 0
-            ntrans += 1
-        else:
-            ctx.check(True, "ok")
+        if r is not None and A is not None:
+            ex, en, rx = r
+            if host in ex:
+                A.active = None
+            if host in en:
+                A.enter_first(k)
+                ctx.hit("aux_reentered_with_host")
+                got = [e["frame"] for e in ae_after if e["ctx"] == "enter"]
+                ctx.check(got == A.S.outline(A.active), "aux/enter-outline-with-host", "aux entered %s with its host frame, outline is %s" % (
+                    got, A.S.outline(A.active)), wit)
+            elif host in rx and A.active is not None:
+                ctx.hit("host_kept_across_main_transition")
     # active frame agreement at the end
     fin = res.ticks[-1]["framers"].get("f") if res.ticks and res.ticks[-1]["framers"] else None
     if fin and fin["status"] in ("started", "running"):
-        ctx.check(fin["active"] == active, "active-frame-differs", "last tick: active %s, model %s" % (fin["active"], active), wit)
-    ctx.case(text, nontrivial=(ntrans >= 2 and nevals >= 5),
-             sample={"P": case["P"], "frames": case["frames"], "transitions": ntrans, "evaluations": nevals} if ntrans >= 2 else None)
+        ctx.check(fin["active"] == F.active, "active-frame-differs", "last tick: active %s, model %s" % (fin["active"], F.active), wit)
+    if aux:
+        ctx.hit("cases_with_" + ("clone_aux" if aux.get("as") else "plain_aux"))
+    ctx.case(text, nontrivial=(F.ntrans >= 2 and F.nevals >= 5),
+             sample={"P": case["P"], "frames": case["frames"], "transitions": F.ntrans, "evaluations": F.nevals} if F.ntrans >= 2 else None)
 
 
 def worker(ctx, job):
@@ -227,8 +290,21 @@ def gen_random(rng, Pstr):
                 f["next"] = rng.choice([nxt, kids[0]])
             frames.append(f)
     frames.append({"name": "fin", "over": None, "next": "fin", "clauses": []})
-    return {"P": Pstr, "frames": frames, "ticks": rng.randint(16, 40),
+    case = {"P": Pstr, "frames": frames, "ticks": rng.randint(16, 40),
             "fperiod": rng.choice([None, None, str(float(2 * Fraction(Pstr)))])}
+    if rng.random() < 0.45:
+        # an auxiliary with clocks of its own under one of the frames (plain, or a clone of a moot framer): it is evaluated
+        # in every run of the main framer while its host frame is entered -- also when a frame above the host makes a
+        # transition that keeps the host -- and starts over with the host
+        anames = ["xa", "xb", "xc"][:rng.randint(1, 3)]
+        aframes = []
+        for j, an in enumerate(anames):
+            nxt = anames[j + 1] if j + 1 < len(anames) else rng.choice(["xfin", "xfin", anames[0]])
+            aframes.append({"name": an, "over": None, "next": nxt, "clauses": [clause(anames, an) for _ in range(rng.randint(1, 2))]})
+        aframes.append({"name": "xfin", "over": None, "next": "xfin", "clauses": []})
+        case["aux"] = {"host": rng.choice([f["name"] for f in frames if f["name"] != "fin"] or ["fin"]),
+                       "as": rng.choice([None, "mine", "k"]), "frames": aframes}
+    return case
 
 
 def run(ctx):
@@ -255,3 +331,10 @@ def run(ctx):
     ctx.floor("fired_go_el", 50)
     ctx.floor("fired_go_re", 50)
     ctx.floor("forced_reentry", 20)
+    ctx.floor("aux_clock_evaluations", 500)
+    ctx.floor("aux_fired_timeout", 20)
+    ctx.floor("aux_fired_repeat", 20)
+    ctx.floor("cases_with_clone_aux", 30)
+    ctx.floor("cases_with_plain_aux", 15)
+    ctx.floor("host_kept_across_main_transition", 10)
+    ctx.floor("aux_reentered_with_host", 20)
